@@ -656,6 +656,12 @@ func roaringBulk(c *lib.Ctx, n int, ord string, stride int) (evals int) {
 		failc(c, class, kase{Kind: "roaring-bulk", N: n, Order: ord, Aux: stride}, "roaring bulk n=%d %s stride=%d: %s", n, ord, stride, fmt.Sprintf(format, a...))
 	}
 	if e := lib.Try(func() {
+		// another bitmap of the process went through an array -> bitmap
+		// conversion before (its array block is now in roaring's block pool)
+		var other roaring.Bitmap
+		for i := 0; i < 4097; i++ {
+			other.Add(uint64(9)<<16 + uint64(5*i+1))
+		}
 		var b roaring.Bitmap
 		model := map[uint64]bool{}
 		base := uint64(3) << 16
@@ -688,17 +694,24 @@ func roaringBulk(c *lib.Ctx, n int, ord string, stride int) (evals int) {
 	return evals
 }
 
-func runRoaring(c *lib.Ctx) {
-	// single goroutine, no garbage collection in between: roaring recycles
-	// blocks through a process wide sync.Pool, so its behaviour depends on
-	// what ran before in the process - keep that order fixed
-	// (one P, no GC: sync.Pool then hands blocks back in a fixed order)
+// roaringEnv runs f in a single goroutine on one P without garbage
+// collection: roaring recycles blocks through a process wide sync.Pool, which
+// then hands them back in a fixed order, so that a case always behaves the same.
+func roaringEnv(f func()) {
 	procs := runtime.GOMAXPROCS(1)
 	defer runtime.GOMAXPROCS(procs)
 	runtime.LockOSThread()
 	defer runtime.UnlockOSThread()
 	old := debug.SetGCPercent(-1)
 	defer debug.SetGCPercent(old)
+	f()
+}
+
+func runRoaring(c *lib.Ctx) {
+	roaringEnv(func() { runRoaring1(c) })
+}
+
+func runRoaring1(c *lib.Ctx) {
 	cnt := 0
 	sequences(len(roarVals), lib.Pick(c, 4, 5), func(seq []int) {
 		roaringSeq(c, seq)
